@@ -524,3 +524,21 @@ def variables_are_replaced_as_whole_names(ctx):
     ctx.check(isinstance(lp, ast.FunctionDef), 'replace_variables#one-pass', 'all names are substituted in one pass',
               'replace_variables substitutes the names one after the other: a marker written for one name is scanned again for the next, so with the names [x1, x0] and the marker x the text `x1 + x0` '
               'becomes `x1 + x1`', f, lp if lp is not None else f.node)
+
+
+@rule('C12.l', min_instances=2)
+def a_case_without_solution_contributes_nothing(ctx):
+    """the cases simplify returns, taken together, are satisfied by exactly the points of the input: a sign case of an absolute value whose bounds contradict each other has no points, so it is dropped - it must neither be returned as None inside the tuple of cases nor be the one case that is picked when all=False. simplify therefore (1) asks absval for ALL cases whatever `all` says, (2) filters the None results before it chooses, and answers None only when every case is None"""
+    f = ctx.func('mystic.symbolic:simplify')
+    calls = calls_where(f.node, lambda c: isinstance(c.func, ast.Name) and c.func.id == 'absval', include_lambda=False)
+    ctx.need(calls, 'simplify: absval is no longer called')
+    c = calls[0]
+    # every case is requested: all=True reaches absval (literally, or through dict(kwds, all=True))
+    txt = ''.join(unparse(c).split())
+    all_cases = 'all=True' in txt
+    ctx.check(all_cases, 'simplify#all-cases', 'absval is asked for every sign case (all=True)',
+              'simplify lets absval choose ONE sign case at random before anything is simplified (%s): when the chosen case contradicts the other lines simplify returns None although the system is satisfiable' % unparse(c)[:70], f, c)
+    drops = [n for n in ast.walk(f.node) if isinstance(n, (ast.GeneratorExp, ast.ListComp)) and any(
+        isinstance(t_, ast.Compare) and isinstance(t_.ops[0], (ast.IsNot, ast.NotEq)) and isinstance(t_.comparators[0], ast.Constant) and t_.comparators[0].value is None for g in n.generators for t_ in g.ifs)]
+    ctx.check(bool(drops), 'simplify#drop-empty', 'cases without a solution (None) are filtered out before the choice',
+              'simplify hands back the None of a case without solution inside its tuple of cases (or picks it): generate_solvers(simplify(...)) then fails on a satisfiable system', f, f.node)
